@@ -93,35 +93,35 @@ type Replay struct {
 	// Ambient: the violation does not reproduce from its tape every time: it depends on
 	// something the simulator cannot seed (Go map iteration order, runtime scheduling
 	// between yields). Hits/Attempts is the reproduction rate measured when it was found.
-	Ambient    bool           `json:"ambient,omitempty"`
-	Attempts   int            `json:"attempts,omitempty"`
-	Hits       int            `json:"hits,omitempty"`
+	Ambient  bool `json:"ambient,omitempty"`
+	Attempts int  `json:"attempts,omitempty"`
+	Hits     int  `json:"hits,omitempty"`
 	// Crash: the worker process died in this run with a panic or fatal error whose origin is the
 	// code under test (written by the driver, which sees the dead process; there is no consumed
 	// tape, the run is re-created from seed and run index). Cpu is the -test.cpu value it ran with.
-	Crash      bool           `json:"crash,omitempty"`
-	Cpu        string         `json:"cpu,omitempty"`
-	ShrunkFrom int            `json:"shrunk_from_draws"`
-	ShrunkTo   int            `json:"shrunk_to_draws"`
-	Candidates int            `json:"shrink_candidates"`
+	Crash      bool   `json:"crash,omitempty"`
+	Cpu        string `json:"cpu,omitempty"`
+	ShrunkFrom int    `json:"shrunk_from_draws"`
+	ShrunkTo   int    `json:"shrunk_to_draws"`
+	Candidates int    `json:"shrink_candidates"`
 }
 
 // Result is the per-worker JSON result.
 type Result struct {
-	Property    string         `json:"property"`
-	Engine      string         `json:"engine"`
-	Seed        uint64         `json:"seed"`
-	Tier        string         `json:"tier"`
-	From        uint64         `json:"from"`
-	To          uint64         `json:"to"`
-	Runs        int            `json:"runs"`
-	Nontrivial  int            `json:"nontrivial"`
-	Steps       int64          `json:"steps"`
-	SimTimeUS   int64          `json:"sim_time_us"`
-	WallS       float64        `json:"wall_s"`
-	Faults      map[string]int `json:"faults"`
-	Probes      map[string]int `json:"probes"`
-	Counters    map[string]int `json:"counters"`
+	Property   string         `json:"property"`
+	Engine     string         `json:"engine"`
+	Seed       uint64         `json:"seed"`
+	Tier       string         `json:"tier"`
+	From       uint64         `json:"from"`
+	To         uint64         `json:"to"`
+	Runs       int            `json:"runs"`
+	Nontrivial int            `json:"nontrivial"`
+	Steps      int64          `json:"steps"`
+	SimTimeUS  int64          `json:"sim_time_us"`
+	WallS      float64        `json:"wall_s"`
+	Faults     map[string]int `json:"faults"`
+	Probes     map[string]int `json:"probes"`
+	Counters   map[string]int `json:"counters"`
 	// DistinctNontrivial holds 64-bit hashes of (sched hash, fired fault multiset) of nontrivial runs.
 	DistinctNontrivial []string            `json:"distinct_nontrivial"`
 	Distinct           map[string][]string `json:"distinct"`
